@@ -111,7 +111,7 @@ def check(ctx):
         o = v[2] if v[3] == ("const", 1) else v[3]
         while o[0] == "call" and o[1][0] == "attr" and o[1][2] == "copy":
             o = o[1][1]
-        okv = o[0] == "sub" and ir.show(o[2], maxdepth=6).startswith("f'baseline_") or (o[0] == "sub" and "BASELINE_PREFIX" in ir.show(o[2], maxdepth=6))
+        okv = o[0] == "sub" and ir.show(o[2], maxdepth=6).startswith("f'baseline_") or (o[0] == "sub" and ("BASELINE_PREFIX" in ir.show(o[2], maxdepth=6) or ir.show(o[2], maxdepth=6).startswith(("f'baseline_", "'baseline_"))))
         detail = "last_election_results_e = baseline column (by pointer) + 1" if okv else detail
     ctx.ob("C05.R2.baseline", f"{ab.qualname}|last_election_results_e = baseline + 1", okv, ab.where(), detail)
     # ---- R3 / R4 ---------------------------------------------------------------------------------------
